@@ -310,7 +310,7 @@ func main() {
 		withCont := *mode == "c07"
 		var directed [][]caseOut
 		if withCont {
-			directed = append(directed, scenarioWedge(), scenarioLaggards(true), scenarioLaggards(false))
+			directed = append(directed, scenarioWedge(), scenarioLaggards(true), scenarioLaggards(false), scenarioLoneLaggard())
 		} else {
 			directed = append(directed, scenarioCompactionEquivocation(4, true), scenarioCompactionEquivocation(4, false),
 				scenarioCompactionEquivocation(7, true), scenarioCompactionEquivocation(7, false))
